@@ -104,19 +104,24 @@ def _run_once(net, script=None, default="identity", sched_seed=0, exec_mode=None
             obs_now = [(int(o.sensor_id), int(o.target_id)) for o in eng.observations]
             miss_all = [(int(m.sensor_id), int(m.target_id), float(m.julian_date)) for m in eng.missed_observations]
             after = {int(i): (np.asarray(a.sensors.boresight, dtype=float).tobytes(), float(a.sensors.time_last_tasked)) for i, a in app.sensor_agents.items()}
-            app.saveDatabaseOutput()
-            con = sqlite3.connect(b.db_path)
-            db_obs = con.execute("select sensor_id, target_id from observations where julian_date = ?", (jd,)).fetchall()
-            db_miss = con.execute("select sensor_id, target_id, reason from missed_observations where julian_date = ?", (jd,)).fetchall()
-            db_task = con.execute("select count(*) from tasks where julian_date = ?", (jd,)).fetchone()[0]
-            con.close()
-            d["db.observations"] = sorted(db_obs)
-            d["db.missed"] = sorted(db_miss)
-            d["db.tasks"] = db_task
+            # the output is written every `save_every` steps, as propagateTo() does for an output step that is a multiple of
+            # the physics step: what the steps in between produced has to survive until then
+            save_every = int(net.get("save_every", 1))
+            if k % save_every == 0 or k == net["nsteps"]:
+                app.saveDatabaseOutput()
             out["digests"].append(d)
-            out["facts"].append({"step": k, "jd": jd, "pairs": pairs, "obs_now": obs_now, "miss_all": miss_all, "db_obs": db_obs, "db_miss": db_miss,
+            out["facts"].append({"step": k, "jd": jd, "pairs": pairs, "obs_now": obs_now, "miss_all": miss_all, "db_obs": [], "db_miss": [],
                                  "before": before, "after": after, "time": float(app.clock.time),
                                  "collect": [c for c in rec.collect if c[0] == k]})
+        con = sqlite3.connect(b.db_path)
+        for d, f in zip(out["digests"], out["facts"]):
+            jd = f["jd"]
+            f["db_obs"] = con.execute("select sensor_id, target_id from observations where julian_date = ?", (jd,)).fetchall()
+            f["db_miss"] = con.execute("select sensor_id, target_id, reason from missed_observations where julian_date = ?", (jd,)).fetchall()
+            d["db.observations"] = sorted(f["db_obs"])
+            d["db.missed"] = sorted(f["db_miss"])
+            d["db.tasks"] = con.execute("select count(*) from tasks where julian_date = ?", (jd,)).fetchone()[0]
+        con.close()
         out["batches"] = list(sched.batches)
     except Exception as e:  # noqa: BLE001
         import traceback
@@ -265,6 +270,10 @@ def run(ctx):
         if ctx.time_left() < 10:
             break
         net = netkit.gen_network(rng)
+        net["save_every"] = rng.choice([1, 1, 2, 3])
+        if net["save_every"] > 1:
+            net["nsteps"] = max(net["nsteps"], 3)
+            ctx.count("nets_with_output_every_n_steps")
         nsched, tasked = eval_net(ctx, net, rng)
         ctx.count("schedules_executed", nsched)
         ctx.count("policy_" + net["policy"])
